@@ -104,13 +104,16 @@ pub fn convert_datetime_tvpair(dt: &DateTimeL) -> (r: tv_pair_type) ensures r ==
 pub struct BlockReader { _p: u8 }
 impl BlockReader {
     pub uninterp spec fn file(&self) -> Seq<u8>;
+    /// ghost: reading this file never fails with an I/O error (a property of the run, not of the code)
+    pub uninterp spec fn reliable(&self) -> bool;
     #[verifier::external_body]
     pub fn filesz(&self) -> (r: FileSz) ensures r as int == self.file().len() { unimplemented!() }
     #[verifier::external_body]
     pub fn read_data_to_buffer(&mut self, fileoffset_beg: FileOffset, fileoffset_end: FileOffset, oneblock: bool, buffer: &mut [u8]) -> (r: ResultReadDataToBuffer)
         requires fileoffset_beg <= fileoffset_end
         ensures
-            final(self).file() == old(self).file(),
+            final(self).file() == old(self).file(), final(self).reliable() == old(self).reliable(),
+            old(self).reliable() ==> !(r is Err),
             final(buffer)@.len() == old(buffer)@.len(),
             r is Found ==> fileoffset_beg < old(self).file().len()
                 && r->Found_0 as int == (if (fileoffset_end as int) < old(self).file().len() { fileoffset_end as int } else { old(self).file().len() as int }) - fileoffset_beg
@@ -183,7 +186,8 @@ impl FixedStruct {
     pub uninterp spec fn len_spec(&self) -> int;
     #[verifier::external_body]
     pub fn new(fileoffset: FileOffset, tz_offset: &FixedOffset, buffer: &[u8], fixedstruct_type: FixedStructType) -> (r: core::result::Result<FixedStruct, Error>)
-        ensures r is Ok ==> r->Ok_0.fo_spec() == fileoffset && r->Ok_0.bytes_spec() == buffer@ && r->Ok_0.len_spec() == fixedstruct_type.esz()
+        ensures r is Ok ==> r->Ok_0.fo_spec() == fileoffset && r->Ok_0.bytes_spec() == buffer@ && r->Ok_0.len_spec() == fixedstruct_type.esz(),
+            r is Ok <==> buildable(fixedstruct_type, buffer@),
     { unimplemented!() }
     #[verifier::external_body]
     pub fn dt(&self) -> (r: &DateTimeL) ensures *r == self.dt_spec() { unimplemented!() }
@@ -194,6 +198,9 @@ impl FixedStruct {
     { unimplemented!() }
 }
 pub type ResultS3FixedStructFind = ResultS3<(FileOffset, FixedStruct), (Option<FileOffset>, Error)>;
+/// whether a message can be built from a record's bytes (FixedStruct::new succeeds): a function of the layout and the bytes
+pub uninterp spec fn buildable(ft: FixedStructType, bytes: Seq<u8>) -> bool;
+pub open spec fn buildable_at(file: Seq<u8>, ft: FixedStructType, fo: int) -> bool { buildable(ft, file.subrange(fo, fo + ft.esz())) }
 #[verifier::external_body]
 pub fn verif_error() -> Error { unimplemented!() }
 /// stand-in (R9) for `counter += 1` on a u64 statistics counter: assumed not to overflow (2^64 records)
@@ -266,6 +273,7 @@ impl FixedStructReader {
     }
     pub open spec fn same_except_map(&self, o: &Self) -> bool {
         &&& self.blockreader.file() == o.blockreader.file()
+        &&& self.blockreader.reliable() == o.blockreader.reliable()
         &&& self.fixedstruct_size == o.fixedstruct_size
         &&& self.fixedstruct_type == o.fixedstruct_type
     }
@@ -356,6 +364,11 @@ impl FixedStructReader {
                     next_after(old(self).map_tvpair_fo@, old(self).blockreader.file(), old(self).fixedstruct_type, kk, r->Found_0.0)
             &&& (r is Err && r->Err_0.0 is Some && old(self).map_tvpair_fo@.contains_key(kk)) ==>
                     next_after(old(self).map_tvpair_fo@, old(self).blockreader.file(), old(self).fixedstruct_type, kk, r->Err_0.0.unwrap())
+            // C08: the search goes on past a record that cannot be built (recoverable: Some(next)); it is abandoned (None) only
+            // after an I/O error, for an offset that is not in the collection, or for a buffer shorter than a record
+            &&& (r is Err && r->Err_0.0 is None && old(self).map_tvpair_fo@.contains_key(kk) && old(buffer)@.len() >= old(self).fixedstruct_type.esz())
+                    ==> !old(self).blockreader.reliable()
+            &&& (r is Err && r->Err_0.0 is Some) ==> !buildable_at(old(self).blockreader.file(), old(self).fixedstruct_type, fo as int)
         }),
 //@before "let sz: FileOffset"
         proof { axiom_key_obeys_cmp(); broadcast use group_btree_axioms; }
@@ -390,6 +403,8 @@ impl FixedStructReader {
                     tv_pair_at_opt is Some ==> exists|p: int| 0 <= p < it.seq().len() && tv_pair_at_opt == Some(*(#[trigger] it.seq()[p]).0) && *it.seq()[p].1 == fileoffset
                         && ((p == it.seq().len() - 1 && fo_next_ as int == file0.len()) || (p + 1 < it.seq().len() && fo_next_ == *it.seq()[p + 1].1)),
                 decreases vstd::std_specs::iter::IteratorSpec::decrease(&it.iter).unwrap_or(arbitrary()),
+//@before "let fs: FixedStruct = match FixedStruct::new("
+        proof { assert(slice_@ =~= file0.subrange(fo as int, fo as int + ft.esz())); }
 //@before "match tv_pair_at_opt"
             proof {
                 let ks = it.seq().map_values(|kv: (&Key, &FileOffset)| *kv.0);
@@ -640,11 +655,12 @@ impl Summary {
 /// ghost: the record file behind `path`, its layout and window, as functions of the worker's arguments
 pub uninterp spec fn fx_file(path: FPath) -> Seq<u8>;
 pub uninterp spec fn fx_type(path: FPath) -> FixedStructType;
+pub uninterp spec fn fx_reliable(path: FPath) -> bool;
 impl FixedStructReader {
     // assumed: `new` stores what preprocess_timevalues returned (contract proved above) and the file/layout it probed
     #[verifier::external_body]
     pub fn new(path: FPath, filetype: FileType, blocksz: BlockSz, tz_offset: FixedOffset, dt_filter_after: DateTimeLOpt, dt_filter_before: DateTimeLOpt) -> (r: ResultFixedStructReaderNew<Error>)
-        ensures r is FileOk ==> r->FileOk_0.wf() && r->FileOk_0.blockreader.file() == fx_file(path) && r->FileOk_0.fixedstruct_type == fx_type(path)
+        ensures r is FileOk ==> r->FileOk_0.wf() && r->FileOk_0.blockreader.file() == fx_file(path) && r->FileOk_0.blockreader.reliable() == fx_reliable(path) && r->FileOk_0.fixedstruct_type == fx_type(path)
             && represents(r->FileOk_0.map_tvpair_fo@, fx_file(path), fx_type(path), otv(dt_filter_after), otv(dt_filter_before), r->FileOk_0.n())
     { unimplemented!() }
     #[verifier::external_body]
@@ -667,6 +683,10 @@ pub open spec fn fx_sent_ok(l: Seq<ChanDatum>, m0: Map<Key, FileOffset>, rem: Ma
     &&& forall|i: int, j: int| 0 < i < j < l.len() ==> key_lt(key_of(file, ft, rec_fo(#[trigger] l[i]) / ft.esz()), key_of(file, ft, rec_fo(#[trigger] l[j]) / ft.esz()))
     &&& forall|i: int, k: Key| 0 < i < l.len() && #[trigger] rem.contains_key(k) ==> key_lt(key_of(file, ft, rec_fo(#[trigger] l[i]) / ft.esz()), k)
     &&& forall|k: Key| #[trigger] rem.contains_key(k) ==> m0.contains_key(k) && m0[k] == rem[k]
+}
+/// every selected record from which a message can be built has been sent
+pub open spec fn fx_complete_buildable(l: Seq<ChanDatum>, m0: Map<Key, FileOffset>, file: Seq<u8>, ft: FixedStructType) -> bool {
+    forall|k: Key| #[trigger] m0.contains_key(k) && buildable_at(file, ft, m0[k] as int) ==> exists|i: int| 0 < i < l.len() && rec_fo(#[trigger] l[i]) == m0[k] as int
 }
 /// every selected record has been sent (each exactly once, by fx_sent_ok's strict order)
 pub open spec fn fx_complete(l: Seq<ChanDatum>, m0: Map<Key, FileOffset>) -> bool {
@@ -767,6 +787,12 @@ pub proof fn lemma_fx_drop(l: Seq<ChanDatum>, m0: Map<Key, FileOffset>, rem: Map
                 #[trigger] represents(m0, fx_file(thread_init_data.0), fx_type(thread_init_data.0), otv(thread_init_data.5), otv(thread_init_data.6), n)
                 && fx_sent_ok(final(chan_send_dt).log().drop_last(), m0, Map::<Key, FileOffset>::empty(), fx_file(thread_init_data.0), fx_type(thread_init_data.0))
                 && fx_complete(final(chan_send_dt).log().drop_last(), m0),
+        // C08 (files with damaged records): whatever status is reported, unless reading the file itself failed, every selected
+        // record a message can be built from was sent
+        fx_reliable(thread_init_data.0) && final(chan_send_dt).log()[0]->FileInfo_0 is Some ==>
+            exists|m0: Map<Key, FileOffset>, n: int|
+                #[trigger] represents(m0, fx_file(thread_init_data.0), fx_type(thread_init_data.0), otv(thread_init_data.5), otv(thread_init_data.6), n)
+                && fx_complete_buildable(final(chan_send_dt).log().drop_last(), m0, fx_file(thread_init_data.0), fx_type(thread_init_data.0)),
 //@before "return;" 7
             proof {
                 assert(m0.dom() =~= Set::<Key>::empty());
@@ -799,7 +825,12 @@ pub proof fn lemma_fx_drop(l: Seq<ChanDatum>, m0: Map<Key, FileOffset>, rem: Map
             file_err is None ==> (forall|k: Key| #[trigger] m0.contains_key(k) ==> fixedstructreader.map_tvpair_fo@.contains_key(k)
                                     || exists|i: int| 0 < i < chan_send_dt.log().len() && rec_fo(#[trigger] chan_send_dt.log()[i]) == m0[k] as int),
             file_err is Some ==> file_err.unwrap() is FileErrIoPath,
+            fixedstructreader.blockreader.reliable() == fx_reliable(thread_init_data.0),
+            fx_reliable(thread_init_data.0) ==> forall|k: Key| #[trigger] m0.contains_key(k) ==> fixedstructreader.map_tvpair_fo@.contains_key(k) || !buildable_at(file0, ft, m0[k] as int)
+                                    || exists|i: int| 0 < i < chan_send_dt.log().len() && rec_fo(#[trigger] chan_send_dt.log()[i]) == m0[k] as int,
+            buffer@.len() == ENTRY_SZ_MAX,
         ensures
+            fx_reliable(thread_init_data.0) ==> fx_complete_buildable(chan_send_dt.log(), m0, file0, ft),
             open_ok(chan_send_dt.log()),
             file_err is None ==> fx_sent_ok(chan_send_dt.log(), m0, Map::<Key, FileOffset>::empty(), file0, ft),
             file_err is None ==> fx_complete(chan_send_dt.log(), m0),
@@ -830,6 +861,17 @@ pub proof fn lemma_fx_drop(l: Seq<ChanDatum>, m0: Map<Key, FileOffset>, rem: Map
                             }
                         }
                     }
+                    if fx_reliable(thread_init_data.0) {
+                        assert forall|k: Key| #[trigger] m0.contains_key(k) implies rem2.contains_key(k) || !buildable_at(file0, ft, m0[k] as int)
+                                || exists|i: int| 0 < i < l2.len() && rec_fo(#[trigger] l2[i]) == m0[k] as int by {
+                            if k == kk { assert(rec_fo(l2[l2.len() - 1]) == m0[kk] as int); }
+                            else if rem_top.contains_key(k) { }
+                            else if buildable_at(file0, ft, m0[k] as int) {
+                                let i = choose|i: int| 0 < i < log_top.len() && rec_fo(#[trigger] log_top[i]) == m0[k] as int;
+                                assert(l2[i] == log_top[i]);
+                            }
+                        }
+                    }
                 }
 //@before "break;" 1
                 proof {
@@ -843,6 +885,15 @@ pub proof fn lemma_fx_drop(l: Seq<ChanDatum>, m0: Map<Key, FileOffset>, rem: Map
                     assert(rem2 == rem_top.remove(kk));
                     if fo_opt is Some { lemma_after_entry(rem_top, file0, ft, n0, kk, fo_opt.unwrap()); }
                     lemma_fx_drop(log_top, m0, rem_top, file0, ft, kk);
+                    if fx_reliable(thread_init_data.0) {
+                        // a reliable file never yields the unrecoverable error; the record skipped could not be built
+                        assert(fo_opt is Some);
+                        assert(m0[kk] == fo);
+                        assert forall|k: Key| #[trigger] m0.contains_key(k) implies rem2.contains_key(k) || !buildable_at(file0, ft, m0[k] as int)
+                                || exists|i: int| 0 < i < chan_send_dt.log().len() && rec_fo(#[trigger] chan_send_dt.log()[i]) == m0[k] as int by {
+                            if k != kk && !rem_top.contains_key(k) { }
+                        }
+                    }
                 }
 //@before "let summary = fixedstructreader.summary_complete();" 2
     let ghost log_prev = chan_send_dt.log();
